@@ -3,7 +3,11 @@
     collections, F64Rep), src/value.rs:26-43 (Value: untagged, order Byte Num Complex Char Box),
     src/boxed.rs:13-20 (BoxedRep {b}), parser/src/complex.rs:9-10 (Complex as (f64, f64)).
     serde's rule for an untagged enum: the FIRST variant that parses wins.  serde_json writes a
-    non-finite f64 as null.  A float literal is taken to denote its nearest double.
+    non-finite f64 as null.  A float literal is taken to denote its nearest double (serde_json
+    with float_roundtrip, /repo 41a5003).
+    Every function takes [cur : bool]: [true] is the code now; [false] is the representation
+    before /repo c00f690 (complex parts as bare f64), 6da1960 (a character list spelled like a
+    named number written as a bare string) and 1df8995 (every other NaN written as "NaN").
     Labels and map keys are modelled at the top level of a value only. *)
 From Coq Require Import List NArith Bool.
 From UV Require Import Base.Value Model.Uasm.
@@ -24,23 +28,35 @@ Definition S_TOMB : text := [116;111;109;98].
 Definition S_INF : text := [8734].
 Definition S_NINF : text := [45;8734].
 Definition K_B : text := [98].
+Definition K_NAN : text := [110;97;110].
 Definition K_LABEL : text := [108;97;98;101;108].
 Definition K_EMPTY_BOXES : text := [101;109;112;116;121;95;98;111;120;101;115].
 Definition K_EMPTY_COMPLEX : text := [101;109;112;116;121;95;99;111;109;112;108;101;120].
 Definition F_NEG_INF : f64 := 18442240474082181120.
 
+(** the strings that F64Rep reserves for its unit variants *)
+Definition is_spelling (s : text) : bool :=
+  text_eqb s S_NAN || text_eqb s S_W || text_eqb s S_EMPTY || text_eqb s S_TOMB ||
+  text_eqb s S_INF || text_eqb s S_NINF.
+
 (** ---- writing *)
-(** From<f64> for F64Rep, array.rs:1649 *)
-Definition f64rep_json (x : f64) : json :=
+(** From<f64> for F64Rep; the newtype variant NaNBits(u64) is written {"nan":bits} *)
+Definition f64rep_json (cur : bool) (x : f64) : json :=
   if f_is_nan x then
     if x =? F_WILD_NAN then JStr S_W else if x =? F_EMPTY_NAN then JStr S_EMPTY
-    else if x =? F_TOMB_NAN then JStr S_TOMB else JStr S_NAN
+    else if x =? F_TOMB_NAN then JStr S_TOMB
+    else if cur then (if x =? F_NAN_BITS then JStr S_NAN else JObj [(K_NAN, JInt x)])
+    else JStr S_NAN
   else if x =? F_INF_BITS then JStr S_INF else if x =? F_NEG_INF then JStr S_NINF else JFloat x.
 (** serde_json on a bare f64 *)
 Definition f64_json (x : f64) : json := if F_INF_BITS <=? f_mag x then JNull else JFloat x.
+(** one complex number of a ComplexCollection::List *)
+Definition pair_json (cur : bool) (c : f64 * f64) : json :=
+  if cur then JArr [f64rep_json cur (fst c); f64rep_json cur (snd c)]
+  else JArr [f64_json (fst c); f64_json (snd c)].
 Definition shape_json (s : list nat) : json := JArr (map (fun n => JInt (N.of_nat n)) s).
 
-Fixpoint to_json (v : value) : json :=
+Fixpoint to_json (cur : bool) (v : value) : json :=
   let wrap sh coll scalar :=
     match sh with
     | [] => match scalar with Some j => j | None => JArr [shape_json sh; coll] end
@@ -48,37 +64,38 @@ Fixpoint to_json (v : value) : json :=
     | _ => JArr [shape_json sh; coll]
     end in
   match v with
-  | VNum sh d => wrap sh (JArr (map f64rep_json d)) (match d with x :: _ => Some (f64rep_json x) | [] => None end)
+  | VNum sh d => wrap sh (JArr (map (f64rep_json cur) d)) (match d with x :: _ => Some (f64rep_json cur x) | [] => None end)
   | VByte sh d => wrap sh (JArr (map JInt d)) (match d with x :: _ => Some (JInt x) | [] => None end)
-  | VChar sh d => wrap sh (JStr d) None
+  | VChar sh d => if cur && is_spelling d then JArr [shape_json sh; JStr d]   (* list_reads_as_other_type *)
+                  else wrap sh (JStr d) None
   | VCplx sh d => wrap sh (match d with
                            | [] => JObj [(K_EMPTY_COMPLEX, JArr [])]
-                           | _ => JArr (map (fun c => JArr [f64_json (fst c); f64_json (snd c)]) d) end) None
+                           | _ => JArr (map (pair_json cur) d) end) None
   | VBox sh d => wrap sh (match d with
                           | [] => JObj [(K_EMPTY_BOXES, JArr [])]
-                          | _ => JArr (map (fun x => JObj [(K_B, to_json x)]) d) end)
-                      (match d with x :: _ => Some (JObj [(K_B, to_json x)]) | [] => None end)
+                          | _ => JArr (map (fun x => JObj [(K_B, to_json cur x)]) d) end)
+                      (match d with x :: _ => Some (JObj [(K_B, to_json cur x)]) | [] => None end)
   end.
 
 (** the collection alone (T::make_collection) *)
-Definition coll_json (v : value) : json :=
+Definition coll_json (cur : bool) (v : value) : json :=
   match v with
-  | VNum _ d => JArr (map f64rep_json d)
+  | VNum _ d => JArr (map (f64rep_json cur) d)
   | VByte _ d => JArr (map JInt d)
   | VChar _ d => JStr d
   | VCplx _ d => match d with [] => JObj [(K_EMPTY_COMPLEX, JArr [])]
-                 | _ => JArr (map (fun c => JArr [f64_json (fst c); f64_json (snd c)]) d) end
+                 | _ => JArr (map (pair_json cur) d) end
   | VBox _ d => match d with [] => JObj [(K_EMPTY_BOXES, JArr [])]
-                | _ => JArr (map (fun x => JObj [(K_B, to_json x)]) d) end
+                | _ => JArr (map (fun x => JObj [(K_B, to_json cur x)]) d) end
   end.
 
 (** From<Array<T>> for ArrayRep<T>, array.rs:1469: keys only -> Map; a label -> Full
     (label together with keys is outside the model) *)
-Definition mto_json (m : mval) : option json :=
+Definition mto_json (cur : bool) (m : mval) : option json :=
   match m with
-  | MV v None None => Some (to_json v)
-  | MV v None (Some k) => Some (JArr [shape_json (shape_of v); to_json k; coll_json v])
-  | MV v (Some l) None => Some (JArr [shape_json (shape_of v); coll_json v; JObj [(K_LABEL, JStr l)]])
+  | MV v None None => Some (to_json cur v)
+  | MV v None (Some k) => Some (JArr [shape_json (shape_of v); to_json cur k; coll_json cur v])
+  | MV v (Some l) None => Some (JArr [shape_json (shape_of v); coll_json cur v; JObj [(K_LABEL, JStr l)]])
   | MV _ (Some _) (Some _) => None
   end.
 
@@ -100,18 +117,29 @@ Definition p_f64 (j : json) : option f64 :=
   match j with
   | JFloat b => Some b | JInt n => Some (f_of_N n)
   | JNeg n => Some (N.lor (f_of_N n) F_NEG_ZERO) | _ => None end.
-(** F64Rep: the unit variants by name, then the untagged Num(f64) *)
-Definition p_f64rep (j : json) : option f64 :=
+(** F64Rep: the unit variants by name, the newtype variant {"nan":u64}, then the untagged Num(f64) *)
+Definition unit_variant (s : text) : option f64 :=
+  if text_eqb s S_NAN then Some F_NAN_BITS else if text_eqb s S_W then Some F_WILD_NAN
+  else if text_eqb s S_EMPTY then Some F_EMPTY_NAN else if text_eqb s S_TOMB then Some F_TOMB_NAN
+  else if text_eqb s S_INF then Some F_INF_BITS else if text_eqb s S_NINF then Some F_NEG_INF else None.
+Definition p_f64rep (cur : bool) (j : json) : option f64 :=
   match j with
-  | JStr s => if text_eqb s S_NAN then Some F_NAN_BITS else if text_eqb s S_W then Some F_WILD_NAN
-              else if text_eqb s S_EMPTY then Some F_EMPTY_NAN else if text_eqb s S_TOMB then Some F_TOMB_NAN
-              else if text_eqb s S_INF then Some F_INF_BITS else if text_eqb s S_NINF then Some F_NEG_INF else None
+  | JStr s => unit_variant s
+  | JObj [(k, JNull)] => unit_variant k            (* a unit variant also reads from {"name":null} *)
+  | JObj [(k, JInt n)] => if cur && text_eqb k K_NAN && (n <? 18446744073709551616) then Some n else None
   | _ => p_f64 j
   end.
 Definition p_complex (j : json) : option (f64 * f64) :=
   match j with
   | JArr [a; b] => match p_f64 a, p_f64 b with Some x, Some y => Some (x, y) | _, _ => None end
   | _ => None end.
+(** one element of ComplexCollection::List: (F64Rep, F64Rep) now, Complex = (f64, f64) before *)
+Definition p_complex_el (cur : bool) (j : json) : option (f64 * f64) :=
+  if cur then
+    match j with
+    | JArr [a; b] => match p_f64rep cur a, p_f64rep cur b with Some x, Some y => Some (x, y) | _, _ => None end
+    | _ => None end
+  else p_complex j.
 Fixpoint assoc (k : text) (l : list (text * json)) : option json :=
   match l with [] => None | (k', v) :: t => if text_eqb k k' then Some v else assoc k t end.
 
@@ -121,6 +149,7 @@ Definition rows (sh : list nat) : nat := match sh with [] => 1%nat | n :: _ => n
 Definition to_num (v : value) : value := match v with VByte s (x :: d) => VNum s (map f_of_byte (x :: d)) | _ => v end.
 
 Section Read.
+  Variable cur : bool.
   (** [self] reads a nested Value (one level less fuel) *)
   Variable self : json -> option mval.
 
@@ -136,9 +165,9 @@ Section Read.
   Definition p_coll (kind : nat) (sh : list nat) (j : json) : option value :=
     match kind, j with
     | 0%nat, JArr l => option_map (VByte sh) (opt_map p_u8 l)
-    | 1%nat, JArr l => option_map (VNum sh) (opt_map p_f64rep l)
+    | 1%nat, JArr l => option_map (VNum sh) (opt_map (p_f64rep cur) l)
     | 2%nat, JObj [(k, JArr [])] => if text_eqb k K_EMPTY_COMPLEX then Some (VCplx sh []) else None
-    | 2%nat, JArr l => option_map (VCplx sh) (opt_map p_complex l)
+    | 2%nat, JArr l => option_map (VCplx sh) (opt_map (p_complex_el cur) l)
     | 3%nat, JStr s => Some (VChar sh s)
     | 4%nat, JObj [(k, JArr [])] => if text_eqb k K_EMPTY_BOXES then Some (VBox sh []) else None
     | 4%nat, JArr l => option_map (VBox sh) (opt_map p_boxed l)
@@ -147,7 +176,7 @@ Section Read.
   Definition p_scalar (kind : nat) (j : json) : option value :=
     match kind with
     | 0%nat => option_map (fun x => VByte [] [x]) (p_u8 j)
-    | 1%nat => option_map (fun x => VNum [] [x]) (p_f64rep j)
+    | 1%nat => option_map (fun x => VNum [] [x]) (p_f64rep cur j)
     | 2%nat => option_map (fun x => VCplx [] [x]) (p_complex j)
     | 3%nat => match j with JStr [c] => Some (VChar [] [c]) | _ => None end
     | _ => option_map (fun x => VBox [] [x]) (p_boxed j)
@@ -206,25 +235,25 @@ Section Read.
     match p_array 3 j with Some m => Some m | None => p_array 4 j end end end end.
 End Read.
 
-Fixpoint of_json_fuel (fuel : nat) (j : json) : option mval :=
+Fixpoint of_json_fuel (cur : bool) (fuel : nat) (j : json) : option mval :=
   match fuel with
   | O => None
-  | S f => p_value (of_json_fuel f) j
+  | S f => p_value cur (of_json_fuel cur f) j
   end.
-Definition of_json (j : json) : option mval := of_json_fuel 12 j.
+Definition of_json (cur : bool) (j : json) : option mval := of_json_fuel cur 12 j.
 
-(** ---- comparison used by the tie (NaN payloads other than the reserved ones are not kept) *)
+(** ---- comparison used by the tie: exact, bit for bit ([canon_f] is what the OLD representation kept of a NaN) *)
 Definition canon_f (x : f64) : f64 :=
   if f_is_nan x then (if (x =? F_WILD_NAN) || (x =? F_EMPTY_NAN) || (x =? F_TOMB_NAN) then x else F_NAN_BITS) else x.
 Fixpoint list_eqb {A} (e : A -> A -> bool) (a b : list A) : bool :=
   match a, b with [], [] => true | x :: a', y :: b' => e x y && list_eqb e a' b' | _, _ => false end.
 Fixpoint value_same (a b : value) : bool :=
   match a, b with
-  | VNum s d, VNum s' d' => list_eqb Nat.eqb s s' && list_eqb (fun x y => canon_f x =? canon_f y) d d'
+  | VNum s d, VNum s' d' => list_eqb Nat.eqb s s' && list_eqb N.eqb d d'
   | VByte s d, VByte s' d' => list_eqb Nat.eqb s s' && list_eqb N.eqb d d'
   | VChar s d, VChar s' d' => list_eqb Nat.eqb s s' && list_eqb N.eqb d d'
   | VCplx s d, VCplx s' d' => list_eqb Nat.eqb s s' &&
-      list_eqb (fun x y => (canon_f (fst x) =? canon_f (fst y)) && (canon_f (snd x) =? canon_f (snd y))) d d'
+      list_eqb (fun x y => (fst x =? fst y) && (snd x =? snd y)) d d'
   | VBox s d, VBox s' d' => list_eqb Nat.eqb s s' &&
       (fix go (x y : list value) : bool := match x, y with
          | [], [] => true | p :: x', q :: y' => value_same p q && go x' y' | _, _ => false end) d d'
@@ -246,12 +275,12 @@ Fixpoint json_eqb (a b : json) : bool :=
 
 (** a tie case: (the value that was written, if any; the JSON text as a tree; what the
     implementation read back, if it did) *)
-Definition vcase_ok (c : option mval * json * option mval) : bool :=
+Definition vcase_ok (cur : bool) (c : option mval * json * option mval) : bool :=
   let '(v, j, back) := c in
   match v with
-  | Some m => match mto_json m with Some j' => json_eqb j' j | None => true end
+  | Some m => match mto_json cur m with Some j' => json_eqb j' j | None => true end
   | None => true end &&
-  opt_eqb mval_same (of_json j) back.
+  opt_eqb mval_same (of_json cur j) back.
 
 Fixpoint failing_from {A} (ok : A -> bool) (i : N) (l : list A) : list N :=
   match l with [] => [] | x :: t => (if ok x then [] else [i]) ++ failing_from ok (i + 1) t end.
